@@ -600,6 +600,12 @@ func main() {
 	if c.Replay != "" {
 		var ins []caseIn
 		for _, cs := range c.ReplayCases() {
+			if rin, ok := parseReuse(cs); ok {
+				runAll(c, ins, 1)
+				ins = ins[:0]
+				c.Emit(runReuse(rin)...)
+				continue
+			}
 			if shape, size, hmode, tmode, gseed, ok := pl.ParseScale(cs); ok {
 				sp := scaleIn{shape: shape, size: size, hmode: hmode, tmode: tmode, gseed: gseed}
 				if f, ok := cs.Field("dist"); ok {
@@ -754,4 +760,6 @@ func main() {
 		}
 	}
 	flush()
+	// object lifecycle: one Pipeline object and the same item instances run on several commit selections (reuse.go)
+	reuseStreams(c, workers)
 }
